@@ -96,16 +96,17 @@ BDCall ==
          default == FLe(tolo, "1e-9")
          collapsed == E.status = "Ok" /\ FLt(E.p1, "1e-100")
          key == E.case \o "|" \o E.grid
-         judged == default /\ E.uniq
+         judged == default /\ E.uniq /\ E.dom
          \* pressures are compared relative to the larger of the pressure and 1 % of the bulk modulus of the stiffer phase (as in Equilibrium.tla)
          PS == IF E.status = "Ok" THEN FAdd(FMax(FAbs(E.p1), FAbs(E.p2)), FMul("1e-2", E.K)) ELSE "1"
      IN /\ (asModelled => Report("C05.bubble_dew_result_is_returned", <<info, E.status, result, l>>, E.status = result))
         /\ ((asModelled /\ result = "Ok") =>
               Report("C05.bubble_dew_ok_means_converged", <<info, small, trivial, steps, l>>, small /\ ~trivial /\ steps >= 1))
-        /\ ((E.status = "Ok" /\ collapsed) =>
+        /\ ((E.status = "Ok" /\ collapsed /\ E.dom) =>
               /\ Report("C05.result_collapsed_to_zero_pressure", <<"bubble_dew", info, E.p1, l>>, FALSE)
               /\ Report("C12.result_collapsed_to_zero_pressure", <<"bubble_dew", info, E.p1, l>>, FALSE))
-        /\ ((E.status = "Ok" /\ ~collapsed) =>
+        \* the numeric laws are judged inside the quantifier of C05 (critical temperatures within a factor 1.8); the other systems are recorded for their control flow
+        /\ ((E.status = "Ok" /\ ~collapsed /\ E.dom) =>
               /\ Report("C05.bubble_dew_keeps_specified_composition", <<info, E.x, E.x1, l>>,
                         \A i \in 1..n : FClose(E.x1[i], FDiv(E.x[i], xs), RtolEcho, "1", "0"))
               /\ Report("C05.phases_share_temperature", <<info, E.T1, E.T2, l>>, E.T1 = E.T2)
@@ -126,6 +127,7 @@ BDCall ==
         /\ ref' = (IF E.status = "Ok" /\ ~collapsed /\ judged /\ key \notin DOMAIN ref THEN ref @@ (key :> [T |-> E.T1, p |-> E.p1, x2 |-> E.x2]) ELSE ref)
         /\ cnt' = BumpAll(cnt, {"bd_calls", "bd_status:" \o E.status} \cup (IF asModelled /\ E.status = result THEN {"bd_as_modelled"} ELSE {"bd_not_as_modelled"})
                       \cup (IF E.status = "Ok" /\ stage = "spinodal" THEN {"bd_ok_from_spinodal_start"} ELSE {})
+                      \cup (IF E.dom THEN {"bd_calls_inside_the_quantifier"} ELSE {})
                       \cup (IF E.status = "Ok" /\ judged /\ key \in DOMAIN ref THEN {"bd_compared_with_first_result"} ELSE {}))
   /\ UNCHANGED <<bdvars, sync, tolo, toli, ntol>>
 
